@@ -977,7 +977,7 @@ theorem ln_tight (v : TwoFloat) (hvw : VW v) (hpos : 0 < rv v) (hL : |Real.log (
       have := ROrd.isLe_ofInts.1 hc
       rw [toInt_zero] at this
       omega
-    rw [ln_eq_steps v hone hle]
+    rw [ln_eq_steps v hone hle (LnBound.not_tiny_of_fv hv.1 hlo)]
     dsimp only
     have hseed := seed_ok hv.1 hw.1 hhpos
     have hLw : (Libm.log v.hi).WF := PF.libm_log_WF hw.1
